@@ -683,7 +683,7 @@ def _hist_case(ctx, level, inputs, kw, k, op0=None, tol=None, validate_every=13)
             known.setdefault(obs[j][0], {})[fid] = reg
     kw2 = dict(kw)
     kw2["level"] = level
-    if obs[j][0].endswith("is_uniform"):
+    if "is_uniform" in obs[j][0]:
         # the model of a path through `abs(y_diff - pixel_scale) > 1e-8` sits exactly on that threshold, where float64
         # rounding decides differently from exact arithmetic: no native cross-validation of this one boolean
         validate_every = 0
@@ -942,7 +942,24 @@ def level_grid(inp, mask_id, sn, full=False):
                 ("%s.native" % who, lambda G, who=who: _structure(_get(G, who).native)),
                 ("%s.is_uniform" % who, lambda G, who=who: _get(G, who).is_uniform),
                 ("%s.shape_native_scaled_interior" % who, lambda G, who=who: _get(G, who).shape_native_scaled_interior)]
+        if not sn:
+            obs += [("%s.is_uniform (own contents)" % who, lambda G, who=who: _is_uniform_spec(_get(G, who)))]
     return build, ops, obs
+
+
+def _is_uniform_spec(o):
+    """independent reference for Grid2D.is_uniform from the object's OWN contents (slim [n,2] storage), as documented:
+    every non-zero step between consecutive y coordinates equals the y pixel scale pixel_scales[0] (tolerance 1e-8)"""
+    a = np.asarray(hx.unwrap(o))
+    if a.ndim != 2:
+        raise LookupError("not a slim grid")
+    ps = o.pixel_scales[0]
+    ok = True
+    for i in range(a.shape[0] - 1):
+        dy = a[i, 0] - a[i + 1, 0]
+        bad = (dy != 0) & (abs(dy - ps) > 1.0e-8)
+        ok = (~bad) & ok if V.is_sym(bad) or V.is_sym(ok) else (ok and not bad)
+    return Spec(o.is_uniform, ok)
 
 
 def _grid_rewrap_region(names, obs_name, kw):
@@ -1083,6 +1100,7 @@ def level_imaging(inp, mask_id, full=False, snr=False, sn=0, snv=False):
             ("d=x.apply_over_sampling", "derive", _setd(lambda G: G["x"].apply_over_sampling(
                 over_sampling=aa.OverSamplingDataset(uniform=aa.OverSamplingUniform(sub_size=2))))),
             ("d=d.trimmed_after_convolution_from((1,3))", "derive", _setd(lambda G: G["d"].trimmed_after_convolution_from(kernel_shape=(1, 3)))),
+            ("d=d.apply_mask(m)", "derive", _setd(lambda G: G["d"].apply_mask(mask=G["m"]))),     # a later mask that unmasks pixels again
             ("d=u.trimmed_after_convolution_from((3,3))", "derive", _setd(lambda G: G["u"].trimmed_after_convolution_from(kernel_shape=(3, 3)))),
             ("d=u.apply_over_sampling", "derive", _setd(lambda G: G["u"].apply_over_sampling(
                 over_sampling=aa.OverSamplingDataset(uniform=aa.OverSamplingUniform(sub_size=2)))))]
@@ -1098,6 +1116,16 @@ def level_imaging(inp, mask_id, full=False, snr=False, sn=0, snv=False):
         cv = o.convolver
         return [np.array(hx.unwrap(cv.mask), dtype=bool), _val(cv.kernel)]
 
+    def masked_spec(G, o):
+        """independent reference for datasets produced by (chains of) apply_mask from the unmasked dataset u: data and
+        noise map are the caller's unmasked values at the unmasked pixels of the dataset's own mask, whatever masks
+        were applied before"""
+        if getattr(o, "unmasked", None) is not G["u"] or tuple(o.data.mask.shape) != (H, W):
+            raise LookupError("not a masked version of the unmasked dataset")
+        pos = _pos(np.array(hx.unwrap(o.data.mask), dtype=bool))
+        return Spec([_val(o.data.slim), _val(o.noise_map.slim)],
+                    [np.array([dv[p] for p in pos], dtype=object), np.array([nv[p] for p in pos], dtype=object)])
+
     obs = [("inputs", lambda G: [_structure(G["data"]), _structure(G["noise"]), _structure(G["psf"]), _structure(G["m"]), _structure(G["m2"])]),
            ("u (unmasked source dataset)", lambda G: [_structure(G["u"].data), _structure(G["u"].noise_map), _structure(G["u"].psf)])]
     for who in ("x", "d"):
@@ -1106,7 +1134,8 @@ def level_imaging(inp, mask_id, full=False, snr=False, sn=0, snv=False):
                 ("%s.psf" % who, lambda G, who=who: _structure(_get(G, who).psf)),
                 ("%s.grids.uniform" % who, lambda G, who=who: _structure(_get(G, who).grids.uniform)),
                 ("%s.grids.blurring" % who, lambda G, who=who: _structure(_get(G, who).grids.blurring)),
-                ("%s.convolver" % who, lambda G, who=who: conv(_get(G, who)))]
+                ("%s.convolver" % who, lambda G, who=who: conv(_get(G, who))),
+                ("%s: masked dataset holds the unmasked data under its own mask" % who, lambda G, who=who: masked_spec(G, _get(G, who)))]
         if snr:
             obs += [("%s.signal_to_noise_map" % who, lambda G, who=who: _structure(_get(G, who).signal_to_noise_map))]
     return build, ops, obs
